@@ -731,8 +731,24 @@ CLI_DOCS_CUSTOM = [
 ]
 
 
+def cli_docs_job(ctx):
+    """documents of the line generator under the default spelling: library clean / list vs. the binary fed through
+    stdin / a file, targets via flags"""
+    q = ctx.quick
+    def cli(inp, outp, mode, js):
+        return {"op": "cli", "input": inp, "output": outp, "mode": mode, "json": js, "targets_via": "flags", "tz": "unset", "lang": "",
+                "now_zone_min": 540, "file_targets": [], "flag_targets": [Chars("a")], "omit": ["ds", "de", "tl", "rm", "off"]}
+    ops = [{"op": "clean"}, cli("stdin", "stdout", "clean", False), {"op": "list_all_json"}, cli("file", "file", "list_all", True)]
+    ctx.job("cli-docs", gens=[lines_gen(4 if q else 6, 2, 2, ["R", "P", "T", "Ru"], ws=(2,)),
+                              lines_gen(5 if q else 6, 1, 1, ["Tu", "F"], unit="\t", base=1, blank=False, suffix="é")],
+            invariants=["Inv_C20"], ops=ops, cli=True,
+            cfg={"ds": "<!-- <", "de": "> -->", "tl": "time-limited", "rm": "removal-marker", "off": "+00:00",
+                 "now": [19000, 0], "targets": ["a"]}, nontrivial=has_ready)
+
+
 def check_C20(ctx):
     q = ctx.quick
+    cli_docs_job(ctx)
     zones = ["UTC", "Asia/Tokyo", "America/Los_Angeles", "unset"]
     if q:
         zones = [zones[ctx.seed % 4], zones[(ctx.seed + 1) % 4]]
